@@ -105,3 +105,10 @@ CHECKS.update({
          "text": "all legal call histories up to the bound: command stream legal per SMT-LIB scoping, no command sent while a reply is unread, no API error, verdicts equal the truth of the intended live assertions, models complete and satisfying, shortcuts truthful",
          "note": "synchronous stand-in: real pipes, buffering and process death are outside; formulas over Bool/BV(2)"},
 })
+
+CHECKS.update({
+ "C19": {"level": "fault_enumeration", "engine": "XH",
+         "technique": "CrossHair over a symbolic arrival schedule and fault set: the real Portfolio parent-side logic runs over in-process fakes of multiprocessing Process/Queue/Pipe; blocking reads with nothing left to deliver are reported as hangs",
+         "text": "every outcome vector {verdict, unknown, crash, silent death}^members x arrival order x late-loser flag for two consecutive solves in solve/get_model/push/add/solve/pop cycles and one-shot queries (Confirmed over all paths)",
+         "note": "parent side only; OS-level races between real processes are outside any symbolic engine available here (stated, not worked around)"},
+})
